@@ -105,6 +105,37 @@ Section Sat.
 
   Definition unsaturated (b : list node) (tk : list nat) : list (nat * nat) :=
     clauses_from b tk 0 b ++ frame_clauses b.
+
+  (* classical identity: an open branch is saturated under indiscernibility of identicals when, for every
+     a = b on it (a, b distinct), the mirror image b = a is there (code 7) and every positive predication at
+     the same world has each of its single-occurrence replacements a -> b, b -> a on the branch (code 8;
+     results of the form x = x are exempt, they are closed under by SelfIdentityClosure).  Kept apart from
+     `unsaturated` (whose emptiness is the hypothesis of the Hintikka theorem, which treats identity as an
+     ordinary predicate). *)
+  Fixpoint repl_one (o n : term) (args : list term) : list (list term) :=
+    match args with
+    | [] => []
+    | x :: r => (if term_eqb x o then [n :: r] else []) ++ map (cons x) (repl_one o n r)
+    end.
+  Definition self_ident (p : nat) (args : list term) : bool :=
+    match p, args with 0, [x; y] => term_eqb x y | _, _ => false end.
+  Fixpoint ident_from (b0 : list node) (k : nat) (b : list node) : list (nat * nat) :=
+    match b with
+    | [] => []
+    | NS (Pred 0 [ta; tb]) true w :: r =>
+        (if term_eqb ta tb then [] else
+           (if has b0 (NS (Pred 0 [tb; ta]) true w) then [] else [(k, 7)]) ++
+           (if forallb (fun m => match m with
+                                 | NS (Pred p args) true w' =>
+                                     negb (Nat.eqb w w') ||
+                                     forallb (fun a' => self_ident p a' || has b0 (NS (Pred p a') true w))
+                                             (repl_one ta tb args ++ repl_one tb ta args)
+                                 | _ => true end) b0
+            then [] else [(k, 8)])) ++ ident_from b0 (S k) r
+    | _ :: r => ident_from b0 (S k) r
+    end.
+  Definition ident_unsaturated (b : list node) : list (nat * nat) :=
+    if fl_classical L then ident_from b 0 b else [].
 End Sat.
 
 (* ---- certifying a reported countermodel: the model as data ---- *)
